@@ -10,7 +10,7 @@ PID = "C08"
 ANCHORS = ["pyoma2.algorithms.fdd:FDD.run", "pyoma2.algorithms.fdd:EFDD.mpe", "pyoma2.algorithms.ssi:SSIdat.run", "pyoma2.algorithms.ssi:SSIdat_MS.run",
            "pyoma2.algorithms.plscf:pLSCF.run", "pyoma2.algorithms.plscf:pLSCF_MS.run", "pyoma2.functions.plscf:ac2mp_poly", "pyoma2.functions.ssi:ac2mp",
            "pyoma2.functions.fdd:SD_est", "pyoma2.functions.plscf:pLSCF"]
-SS_ALGS = ["FDD", "EFDD", "FSDD", "SSIcov", "SSIcovR", "SSIdat", "pLSCF"]
+SS_ALGS = ["FDD", "EFDD", "FSDD", "SSIcov", "SSIcovR", "SSIdat", "pLSCF", "SSIcovU"]  # SSIcovU: SSIcov with the uncertainty computation and its variance criterion
 MS_ALGS = ["FDD_MS", "EFDD_MS", "SSIcov_MS", "SSIdat_MS", "pLSCF_MS"]
 TRANSF = ["gain", "gain_pow2", "perm", "mix", "time", "time_pow2"]
 REQUIRED_MONITORS = [f"{t}@{a}" for a in SS_ALGS for t in ("gain", "perm", "mix", "time")] + [f"{t}@{a}" for a in MS_ALGS for t in ("gain", "perm", "time")] + ["unit-normalisation", "labels@SC_apply under an exact time unit", "stable-pole labels on bit-identical tables"]
@@ -72,6 +72,10 @@ def alg_spec(rng, alg, nch, neutral_phi):
         spec.update(kw=dict(nxseg=int(rng.choice([256, 512])), method_SD=method_SD, pov=float(rng.choice([0.25, 0.5]))), mpe="DF")
     elif base in ("EFDD", "FSDD"):
         spec.update(kw=dict(nxseg=1024, method_SD=method_SD), mpe="DF12")
+    elif base == "SSIcovU":
+        # the pole variances decide through hc['cov_max'] which poles stay in the table: gain, channel order and mixing leave them as they are,
+        # the time unit scales them (and the limit, which is stated in Hz^2) by k^2
+        spec.update(kw=dict(br=int(rng.integers(5, 8)), ordmax=int(rng.integers(6, 10)), hc=hc, method="cov_mm", calc_unc=True, nb=int(rng.integers(8, 16))), mpe="order")
     elif base in ("SSIcov", "SSIcovR", "SSIdat"):
         br = int(rng.integers(8, 13))
         spec.update(kw=dict(br=br, ordmax=int(rng.integers(10, 17)), hc=hc, method={"SSIcov": "cov_mm", "SSIcovR": "cov_R", "SSIdat": "dat"}[base]), mpe="order")
@@ -83,7 +87,7 @@ def alg_spec(rng, alg, nch, neutral_phi):
 
 def cls_of(alg):
     from pyoma2 import algorithms as A_
-    return getattr(A_, {"SSIcovR": "SSIcov"}.get(alg, alg))
+    return getattr(A_, {"SSIcovR": "SSIcov", "SSIcovU": "SSIcov"}.get(alg, alg))
 
 
 def run_single(data, fs, spec, sel, ref_ind=None):
@@ -291,12 +295,14 @@ def draw_transform(rng, tr, nch):
 def run_single_case(ctx, case, rng):
     alg, tr = case["alg"], case["tr"]
     nch = int(rng.integers(2, 9)) if rng.random() < 0.5 else int(rng.integers(3, 6))
+    if alg == "SSIcovU":
+        nch = int(rng.integers(3, 6))
     fs = float(rng.choice([50.0, 100.0, 200.0]))
     N = int(rng.integers(6000, 10000))
     kind, data, fn = make_data(rng, nch, N, fs)
     spec = alg_spec(rng, alg, nch, neutral_phi=(tr == "mix"))
     ref = None
-    if "br" in spec["kw"] and tr != "mix" and nch >= 3 and rng.random() < 0.5:
+    if "br" in spec["kw"] and tr != "mix" and nch >= 3 and (rng.random() < 0.5 or (alg == "SSIcovU" and case.get("k", 0) % 2 == 0)):
         nref = int(rng.integers(2, nch))
         ref = [int(x) for x in rng.permutation(nch)[:nref]]
         spec["kw"]["ordmax"] = min(spec["kw"]["ordmax"], (spec["kw"]["br"] + 1) * nref - 2)
@@ -372,6 +378,9 @@ def run_single_time(data, fs, k, spec, sel, ref):
     kw = dict(spec["kw"])
     if ref is not None and "br" in kw:
         kw["ref_ind"] = list(ref)
+    if kw.get("calc_unc") and "cov_max" in kw.get("hc", {}):
+        # the variance limit is a dimensional part of the request (Hz^2), like the picks and the band widths: stated in the new unit
+        kw["hc"] = dict(kw["hc"], cov_max=kw["hc"]["cov_max"] * k * k)
     a = cls_of(spec["alg"])(name="a", **kw)
     ss = SingleSetup(np.array(data, copy=True), fs * k)
     ss.add_algorithms(a)
